@@ -1,24 +1,25 @@
 #!/venv/bin/python
 """write /verif/seeded/SWEEP.md (development wave) and HELDOUT.md (held-out wave) from the meta.json files"""
 import json, os, glob
-rows = {'dev': [], 'heldout': []}
+rows = {'dev': [], 'heldout': [], 'heldout2': []}
 for d in sorted(glob.glob('/verif/seeded/C*')):
     m = json.load(open(d + '/meta.json'))
     wave = m.get('wave', 'dev')
     rows[wave].append((os.path.basename(d), m.get('site', '?'), (m.get('summary', '') or '').replace('\n', ' ')[:150],
                        (m.get('needs_to_manifest', '') or '').replace('\n', ' ')[:120], ', '.join(m.get('caught_by', [])) or '**missed**',
                        m.get('not_caught_reason', ''), ', '.join(m.get('caught_by_initial', []) + ['exit 2: ' + x for x in m.get('caught_by_initial_exit2', [])]) or 'missed'))
-for wave, fn, title in (('dev', 'SWEEP.md', 'Development wave'), ('heldout', 'HELDOUT.md', 'Held-out wave')):
+FROZEN = {'heldout': '44b4fcb', 'heldout2': 'a476181'}
+for wave, fn, title in (('dev', 'SWEEP.md', 'Development wave'), ('heldout', 'HELDOUT.md', 'Held-out wave'), ('heldout2', 'HELDOUT2.md', 'Second held-out wave')):
     if not rows[wave]:
         continue
     with open('/verif/seeded/' + fn, 'w') as f:
         n = len(rows[wave]); c = sum(1 for r in rows[wave] if 'missed' not in r[4])
         f.write('# %s of seeded changes: %d / %d reported by a check\n\n' % (title, c, n))
         f.write('Produced by `tools/sweep_seeds.py` (applies each patch to /repo, runs every quick check, resets the tree).\n\n')
-        if wave == 'heldout':
+        if wave in FROZEN:
             ci = sum(1 for r in rows[wave] if r[6] != 'missed' and not r[6].startswith('exit 2'))
             ce = sum(1 for r in rows[wave] if r[6].startswith('exit 2'))
-            f.write('**Generalisation figure (checks as they were before any held-out change had been looked at, /verif commit 44b4fcb): %d / %d reported, '
+            f.write('**Generalisation figure (checks as they were before any change of this wave had been looked at, /verif commit ' + FROZEN[wave] + '): %d / %d reported, '
                     '%d more stopped a check with ANALYSIS-ERROR (exit 2).**  The last column is the result with the checks as committed now, i.e. after the rules '
                     'were generalised from the misses (see DESIGN section 11).\n\n' % (ci, n, ce))
             f.write('| seed | site | change | needs | first evaluation | reported by (now) |\n|---|---|---|---|---|---|\n')
